@@ -291,25 +291,38 @@ struct Paths
         Outcome o; o.cls = std::string("violation:paths:") + kind; o.what = std::move(what); return o;
     }
 
+    // the clauses compose: converting reads and any_image reads are also made through image_read_settings(top_left, dim)
+    // and must then equal the same crop of the canonical read (set by one() for the ops any / rci / rcv)
+    struct Rect { bool on = false; long x = 0, y = 0, w = 0, h = 0; std::string text() const { return on ? " region (" + std::to_string(x) + "," + std::to_string(y) + " " + std::to_string(w) + "x" + std::to_string(h) + ")" : std::string(); } };
+    static Rect& cur_rect() { static Rect r; return r; }
+    static settings_t rect_settings()
+    {
+        Rect const& r = cur_rect();
+        return r.on ? settings_t(gil::point_t(r.x, r.y), gil::point_t(r.w, r.h)) : settings_t();
+    }
+
     template <class P> static Outcome check_convert(Native const& ref, Bytes& bytes, char const* ext, DevSpec const& d, bool as_view)
     {
         using CImg = gil::image<P, false>;
-        CImg expect(ref.dimensions());
-        gil::copy_and_convert_pixels(gil::const_view(ref), gil::view(expect));
+        Rect const rg = cur_rect();
+        auto src = rg.on ? gil::subimage_view(gil::const_view(ref), (int)rg.x, (int)rg.y, (int)rg.w, (int)rg.h) : gil::const_view(ref);
+        CImg expect(src.dimensions());
+        gil::copy_and_convert_pixels(src, gil::view(expect));
         CImg got;
         Outcome o;
+        settings_t st = rect_settings();
         guarded(o, [&] {
             if (as_view)
             {
-                got.recreate(ref.dimensions());
-                with_read_device<Tag>(d, bytes, ext, [&](auto& dev) { gil::read_and_convert_view(dev, gil::view(got), Tag()); });
+                got.recreate(src.dimensions());
+                with_read_device<Tag>(d, bytes, ext, [&](auto& dev) { gil::read_and_convert_view(dev, gil::view(got), st); });
             }
             else
-                with_read_device<Tag>(d, bytes, ext, [&](auto& dev) { gil::read_and_convert_image(dev, got, Tag()); });
+                with_read_device<Tag>(d, bytes, ext, [&](auto& dev) { gil::read_and_convert_image(dev, got, st); });
         });
-        if (o.cls != "ok") return fail("unexpected-exception", std::string(as_view ? "read_and_convert_view: " : "read_and_convert_image: ") + o.cls + " " + o.what);
+        if (o.cls != "ok") return fail("unexpected-exception", std::string(as_view ? "read_and_convert_view" : "read_and_convert_image") + rg.text() + ": " + o.cls + " " + o.what);
         std::string why;
-        if (!views_equal(gil::const_view(expect), gil::const_view(got), why)) return fail("convert-mismatch", std::string(as_view ? "read_and_convert_view" : "read_and_convert_image") + " != color_convert(native read): " + why);
+        if (!views_equal(gil::const_view(expect), gil::const_view(got), why)) return fail("convert-mismatch", std::string(as_view ? "read_and_convert_view" : "read_and_convert_image") + rg.text() + " != color_convert(native read): " + why);
         Outcome ok; ok.cls = "ok"; return ok;
     }
 
@@ -321,6 +334,13 @@ struct Paths
         Outcome ok; ok.cls = "ok";
         std::string why;
         long W = (long)ref.width(), H = (long)ref.height();
+        cur_rect() = Rect();
+        if ((p == "any" || p == "rci" || p == "rcv") && op.num("region") != 0 && cfg.subrect_ok && W > 0 && H > 0)
+        {
+            Rect& r = cur_rect();
+            r.on = true; r.x = op.num("x") % W; r.y = op.num("y") % H;
+            r.w = 1 + op.num("w") % (W - r.x); r.h = 1 + op.num("h") % (H - r.y);
+        }
         if (p == "dev")
         {
             Native got; Outcome o;
@@ -438,11 +458,15 @@ struct Paths
         {
             if (!cfg.any_ok) { ok.cls = "skipped"; return ok; }
             Any img; Outcome o;
-            guarded(o, [&] { with_read_device<Tag>(d, bytes, ext, [&](auto& dev) { gil::read_image(dev, img, Tag()); }); });
-            if (o.cls != "ok") return fail("unexpected-exception", "read_image(any_image): " + o.cls + " " + o.what);
+            Rect const rg = cur_rect();
+            settings_t st = rect_settings();
+            guarded(o, [&] { with_read_device<Tag>(d, bytes, ext, [&](auto& dev) { gil::read_image(dev, img, st); }); });
+            if (o.cls != "ok") return fail("unexpected-exception", "read_image(any_image)" + rg.text() + ": " + o.cls + " " + o.what);
             uint64_t pd = 0; long w = 0, h = 0;
             boost::variant2::visit(DigestVisitor{&pd, &w, &h}, gil::const_view(img));
-            if (w != W || h != H || pd != view_digest(gil::const_view(ref))) return fail("any-mismatch", "any_image read differs from read_image into the native type (alternative " + std::to_string(img.index()) + ")");
+            auto want = rg.on ? gil::subimage_view(gil::const_view(ref), (int)rg.x, (int)rg.y, (int)rg.w, (int)rg.h) : gil::const_view(ref);
+            if (w != (long)want.width() || h != (long)want.height() || pd != view_digest(want))
+                return fail("any-mismatch", "any_image read" + rg.text() + " differs from read_image into the native type (alternative " + std::to_string(img.index()) + ", got " + std::to_string(w) + "x" + std::to_string(h) + ")");
             return ok;
         }
         if (p == "rci" || p == "rcv")
